@@ -12,8 +12,10 @@
 (*                              (raw stub or CascadeGetter([stub])) returned *)
 (*   return  c res              SharesAvailable returned (ok / notAvailable / cancelled / outside) *)
 (*   cancel  c                  the caller's context was cancelled            *)
-(*   flush | restart | crash  disk    Close / Close+new instance / new instance over a *)
-(*                              snapshot; disk = decoded content of the underlying datastore *)
+(*   flush | restart | crash  disk [k]  Close / Close+new instance / new instance over a *)
+(*                              snapshot; disk = decoded content of the underlying datastore; *)
+(*                              k = sample amount the new instance is configured with       *)
+(*   plant   h                  a record without coordinates was written under h's key      *)
 (*                                                                         *)
 (* Steps of the code that cannot be observed (StartSession, FindHeld, LoadOrDraw, and the *)
 (* return steps, whose observation may lag behind the release of the session) are taken *)
@@ -50,7 +52,7 @@ ResetVars ==
     /\ drawn' = [h \in Heights |-> [set |-> FALSE, d |-> {}]]
     /\ seen' = [h \in Heights |-> {}] /\ okGiven' = {}
     /\ lost' = [h \in Heights |-> FALSE]
-    /\ calls' = 0 /\ envs' = 0 /\ hist' = <<>>
+    /\ calls' = 0 /\ envs' = 0 /\ k' = K /\ hist' = <<>>
 
 TraceInit == Init /\ i = 1 /\ owed = NoOwed /\ TLCSet(1, 1)
 
@@ -103,6 +105,7 @@ TReturn   == /\ Ev.ev = "return"
                 ELSE /\ UNCHANGED owed
                      /\ \/ EmptyOrOutside(c) /\ EmptyOrOutsideVerdict(c) = res
                         \/ WaitAbort(c) /\ res = "cancelled"
+                        \/ ReturnInvalid(c) /\ res = "invalid"
                         \/ AllDone(c) /\ res = "ok"
                         \/ ReturnNothing(c) /\ res = "notAvailable"
                         \/ PersistAndReturn(c) /\ PersistVerdict(c) = res
@@ -116,12 +119,15 @@ TFlush    == /\ Ev.ev = "flush"
              /\ DiskMatches(Ev.disk) /\ UNCHANGED owed /\ Advance
 
 TRestart  == /\ Ev.ev = "restart" /\ owed = NoOwed
-             /\ IF calls > 0 THEN GracefulRestart ELSE (Quiet /\ UNCHANGED vars)
+             /\ IF calls > 0 THEN GracefulRestartTo(Ev.k) ELSE (Quiet /\ k' = Ev.k /\ UNCHANGED varsNoK)
              /\ DiskMatches(Ev.disk) /\ UNCHANGED owed /\ Advance
 
 TCrash    == /\ Ev.ev = "crash"
-             /\ IF calls > 0 THEN Crash ELSE UNCHANGED vars
+             /\ IF calls > 0 THEN CrashTo(Ev.k) ELSE (k' = Ev.k /\ UNCHANGED varsNoK)
              /\ DiskMatches(Ev.disk) /\ owed' = NoOwed /\ Advance
+
+\* a record without coordinates was written under the block's key behind the instance's back
+TPlant    == Ev.ev = "plant" /\ Plant(Ev.h) /\ UNCHANGED owed /\ Advance
 
 -----------------------------------------------------------------------------
 (* silent steps of a caller that still has a line to come *)
@@ -140,13 +146,14 @@ Silent(c) ==
             \* return steps ahead of their line: the verdict is owed
             \/ /\ Trace[j].ev = "return" /\ j # i
                /\ \/ AllDone(c) /\ owed' = [owed EXCEPT ![c] = "ok"]
+                  \/ ReturnInvalid(c) /\ owed' = [owed EXCEPT ![c] = "invalid"]
                   \/ ReturnNothing(c) /\ owed' = [owed EXCEPT ![c] = "notAvailable"]
                   \/ PersistAndReturn(c) /\ owed' = [owed EXCEPT ![c] = PersistVerdict(c)]
 
 TraceNext ==
     /\ i <= N
     /\ \/ TReset \/ TCall \/ TEnter \/ TRet \/ TSeen \/ TReturn \/ TCancel
-       \/ TFlush \/ TRestart \/ TCrash
+       \/ TFlush \/ TRestart \/ TCrash \/ TPlant
        \/ \E c \in Callers : Silent(c)
 
 TraceSpec == TraceInit /\ [][TraceNext]_tvars
